@@ -302,6 +302,86 @@ def h_proof(ctx: Any, nvars: int, nlabels: int, nsteps: int, layouts: bool = Fal
         ctx.check(dict(ep.labels) == want_e and list(ep.applied_lemmas) == [1], 'C15.proof.earlier-theorem-differs', lambda: f'floats {order} goal over {gv}: earlier theorem decoded as {dict(ep.labels)!r} {list(ep.applied_lemmas)!r}, expected {want_e!r} [1]')
 
 
+# -- marked steps are resolved when the proof is executed ------------------------------------------
+
+def _decode_letters(text: str) -> list:
+    """Appendix B on the letters of a compressed proof: numbers and 'Z' (blanks ignored)"""
+    steps: list = []
+    cur = ''
+    for ch in text:
+        if ch.isspace():
+            continue
+        if ch == 'Z':
+            steps.append('Z')
+        elif 'U' <= ch <= 'Y':
+            cur += ch
+        else:
+            steps.append(_spec_concrete(cur + ch))
+            cur = ''
+    return steps
+
+
+def h_exec(ctx: Any, bench: str, twin: bool = False) -> None:
+    """"Z marks the preceding step for reuse, and numbers index ... then marked steps": a shipped compressed proof
+    gets one more (unused) mark after an arbitrary step -- Appendix B numbers the k-th Z m+n+k whatever step it follows,
+    so every reference to a later mark moves up by one -- and must still execute to the same theorem"""
+    import re
+
+    from proof_generation.interpreter import ExecutionPhase
+    from proof_generation.metamath.converter.converter import MetamathConverter
+    from proof_generation.metamath.parser import parse_database
+    from proof_generation.metamath.translate import exec_proof
+    from proof_generation.proof import ProofExp
+    from proof_generation.proved import Proved
+    from proof_generation.stateful_interpreter import StatefulInterpreter
+    from ..paths import REPO
+
+    src = open(f'{REPO}/generation/mm-benchmarks/{bench}.mm').read()
+    mm = re.search(r'(goal \$p [^$]*\$=\s*\()([^)]*)(\))([^$]*)(\$\.)', src)
+    assert mm is not None
+    labels = mm.group(2).split()
+    steps = _decode_letters(mm.group(4))
+    # m mandatory hypotheses: every number up to the first label's number that occurs is a hypothesis or label;
+    # marks are numbered from base+1 where base = m + n.  base is read off the original proof: the largest number
+    # that can be a label is found by executing the original with the real converter below.
+    conv0 = MetamathConverter(parse_database(src))
+    base = len(conv0.get_lemma_by_name('goal').proof.labels)
+    ctx.assume(base >= len(labels))
+    # (not directly before an existing Z: two marks in a row on one step are not clearly covered by Appendix B)
+    positions = [i + 1 for i, st in enumerate(steps) if st != 'Z' and (i + 1 == len(steps) or steps[i + 1] != 'Z')]
+    pos = positions[ctx.choose(len(positions), 'extra mark after step')] if not twin else positions[0]
+    k = sum(1 for st in steps[:pos] if st == 'Z')
+    new = []
+    for i, st in enumerate(steps):
+        if i == pos:
+            new.append('Z')
+        new.append(st + 1 if st != 'Z' and st > base + k else st)
+    if pos == len(steps):
+        new.append('Z')
+    text = ''.join(st if st == 'Z' else _encode_concrete(st) for st in new)
+    src2 = src[: mm.start(4)] + ' ' + text + ' ' + src[mm.end(4):]
+    ctx.count('reached')
+    ctx.sample({'benchmark': bench, 'extra_mark_after_step': pos, 'proof_text': text})
+    if twin:
+        ctx.violation('TWIN')
+    outcomes = []
+    for label, source in (('original', src), ('with the extra mark', src2)):
+        try:
+            conv = MetamathConverter(parse_database(source))
+            pe = ProofExp(axioms=[], claims=[conv.get_lemma_by_name('goal').pattern])
+            from proof_generation.claim import Claim
+
+            goal = conv.get_lemma_by_name('goal').pattern
+            it = StatefulInterpreter(ExecutionPhase.Proof, claims=[Claim(goal)])
+            exec_proof(conv, 'goal', pe, it)  # ends with publish_proof, which compares with the claim
+            outcomes.append((label, 'ok', len(it.claims), 0))
+        except Exception as e:
+            outcomes.append((label, f'raised {type(e).__name__}: {str(e)[:80]}', None, None))
+    ctx.assume(outcomes[0][1] == 'ok')
+    ctx.check(outcomes[1][1] == 'ok', 'C15.exec.marked-steps.raises', lambda: f'{bench}: proof {text!r} (one more mark after step {pos}): {outcomes[1][1]}')
+    ctx.check(outcomes[1][2] == outcomes[1][3], 'C15.exec.marked-steps.claim-not-discharged', lambda: f'{bench}: proof {text!r}: {outcomes[1][2]} claim(s) left')
+
+
 def setup() -> None:
     pass
 
@@ -321,6 +401,8 @@ def levels(tier: str) -> list[dict]:
     L: list[dict] = []
     for nv, nl, ns in ([(1, 1, 2), (3, 3, 1), (3, 1, 2)] if q else [(1, 2, 3), (3, 3, 2), (3, 1, 3), (2, 2, 4)]):
         L.append(dict(label=f'import_proof/vars<={nv},labels<={nl},steps<={ns}', module=M, fn='h_proof', kwargs=dict(nvars=nv, nlabels=nl, nsteps=ns), budget_s=bud, required=True, twin=(nv == 1)))
+    for bench in (('impreflex-compressed-goal',) if q else ('impreflex-compressed-goal', 'transfer-simple-compressed-goal')):
+        L.append(dict(label=f'exec_proof/{bench}/one more mark after any step', module=M, fn='h_exec', kwargs=dict(bench=bench), budget_s=bud, required=q, twin=False))
     for nv, nl, ns in ([(3, 2, 1)] if q else [(3, 2, 1), (3, 3, 2)]):
         L.append(dict(label=f'import_proof/top-level|block|block-with-$d, with and without an earlier theorem/vars<={nv},labels<={nl},steps<={ns}', module=M, fn='h_proof', kwargs=dict(nvars=nv, nlabels=nl, nsteps=ns, layouts=True), budget_s=bud, required=True, twin=False))
     return L
